@@ -363,3 +363,133 @@ func c14r8(r *R) {
 		r.check(len(bad) == 0, nm+"#stateless", fn.Pos(), "keeps no state in the resolver", strings.Join(bad, "; ")+": what one evaluation leaves behind is seen by the next, unrelated one that gets this pooled resolver")
 	}
 }
+
+func init() {
+	register("C15", "R7", 2, "an expired idle (or header) timeout ends the connection: in connection mode every failure to read the next request makes handle return the close verdict (errClose) - any other error value is only counted by the serve loop and the stalled connection stays open for several more timeouts", c15r7)
+	register("C16", "R8", 8, "header rules act on the request that goes out: the configured request rules run before the proxy's own fix-ups that depend on their outcome (setEmptyUserAgent marks a removed User-Agent so that the transport does not re-add one) - the C01.R2 order decision, claimed here for the '-name' clause on the wire", c01r2)
+	register("C16", "R9", 2, "response rules apply to every response a non-CONNECT request gets: an upstream CONNECT rejection that is relayed to the client is bound to the client's request before the response modifiers run (they skip responses whose request is a CONNECT)", c16r9)
+	register("C18", "R6", 2, "the Via element carries the protocol version the client used: in connection mode nothing overwrites the request's Proto/ProtoMajor/ProtoMinor before the request modifiers run", c18r6)
+	register("C18", "R7", 1, "a detected loop is answered 400: the error value the Via modifier returns has exactly the dynamic type that forwarder's status classifier extracts with errors.As (a pointer where a value is expected, or the reverse, falls through to 500)", c18r7)
+}
+
+func c15r7(r *R) {
+	h := r.method("internal/martian", "proxyConn", "handle")
+	ps, _ := enumPathsOpts(h, 60000, 1, InlineOpts{})
+	n := 0
+	var bad []string
+	for _, p := range ps {
+		failed := p.hasCond(func(c string) bool {
+			return strings.HasPrefix(c, "((*martian.proxyConn).readRequest($0)#1 != nil)")
+		})
+		if !failed || len(p.Ret) != 1 {
+			continue
+		}
+		n++
+		if p.Ret[0] != "martian.errClose" {
+			bad = append(bad, "returns "+shorten(p.Ret[0], 70)+" on ["+shorten(strings.Join(p.Conds, " ∧ "), 140)+"]")
+		}
+	}
+	r.check(n >= 2 && len(bad) == 0, "proxyConn.handle#read-failure-closes", h.Pos(), fmt.Sprintf("all %d read-failure paths return errClose", n), "a failed read of the next request does not end the connection: "+strings.Join(dedupStrings(bad), "; "))
+	// and the serve loop ends the connection on errClose
+	hl := r.method("internal/martian", "Proxy", "handleLoop")
+	found := false
+	eachInstr(hl, func(ins ssa.Instruction) {
+		if c, ok := ins.(*ssa.Call); ok && calleeName(c.Common()) == "errors.Is" && strings.HasSuffix(describe(c.Common().Args[1]), "martian.errClose") {
+			found = true
+		}
+		if b, ok := ins.(*ssa.BinOp); ok && (strings.HasSuffix(describe(b.Y), "martian.errClose") || strings.HasSuffix(describe(b.X), "martian.errClose")) {
+			found = true
+		}
+	})
+	r.check(found, "handleLoop#errClose-ends", hl.Pos(), "the serve loop tests for errClose", "the serve loop no longer recognises the close verdict")
+}
+
+func c16r9(r *R) {
+	for _, spec := range []struct{ typ string }{{"proxyConn"}, {"proxyHandler"}} {
+		fn := r.method("internal/martian", spec.typ, "writeErrorResponse")
+		var bind, mod ssa.Instruction
+		eachInstr(fn, func(ins ssa.Instruction) {
+			switch x := ins.(type) {
+			case *ssa.Store:
+				if fa, ok := x.Addr.(*ssa.FieldAddr); ok && typeStr(fa.X.Type()) == "*net/http.Response" && fieldName(fa.X.Type(), fa.Field) == "Request" {
+					bind = siteOf(ins)
+				}
+			case *ssa.Call:
+				if strings.HasSuffix(calleeName(x.Common()), ").modifyResponse") && mod == nil {
+					mod = siteOf(ins)
+				}
+			}
+		})
+		if bind == nil || mod == nil {
+			r.bad(spec.typ+".writeErrorResponse#bind-before-rules", fn.Pos(), "the relayed response is not bound to the client's request, or the response modifiers are not run")
+			continue
+		}
+		r.check(reaches(bind, mod) && !reaches(mod, bind), spec.typ+".writeErrorResponse#bind-before-rules", bind.Pos(), "res.Request = req before modifyResponse", "the relayed CONNECT rejection is bound to the client's request only after the response modifiers ran: they see the transport's CONNECT and skip the response rules")
+	}
+}
+
+func c18r6(r *R) {
+	h := r.method("internal/martian", "proxyConn", "handle")
+	var mod ssa.Instruction
+	eachInstr(h, func(ins ssa.Instruction) {
+		if c, ok := ins.(*ssa.Call); ok && strings.HasSuffix(calleeName(c.Common()), ").modifyRequest") && mod == nil {
+			mod = ins
+		}
+	})
+	if mod == nil {
+		r.missing("call of modifyRequest in proxyConn.handle")
+	}
+	var bad []string
+	for _, w := range messageWrites(h) {
+		if w.owner == "request" && strings.HasPrefix(w.what, "field:Proto") && !reaches(mod, w.site) {
+			bad = append(bad, w.what+" := "+w.val+" at "+r.rel(w.at.Pos()))
+		}
+	}
+	r.check(len(bad) == 0, "proxyConn.handle#client-version-kept", h.Pos(), "the request's protocol version is untouched before the modifiers", "the client's protocol version is overwritten before the Via modifier reads it ("+strings.Join(bad, "; ")+"): every hop is recorded as 1.1")
+	vm := r.method("internal/martian/header", "ViaModifier", "ModifyRequest")
+	uses := false
+	eachInstr(vm, func(ins ssa.Instruction) {
+		if fa, ok := ins.(*ssa.FieldAddr); ok && typeStr(fa.X.Type()) == "*net/http.Request" && strings.HasPrefix(fieldName(fa.X.Type(), fa.Field), "ProtoM") {
+			uses = true
+		}
+	})
+	r.check(uses, "ViaModifier.ModifyRequest#reads-version", vm.Pos(), "version taken from the request", "the Via element is not built from the request's ProtoMajor/ProtoMinor")
+}
+
+func c18r7(r *R) {
+	vm := r.method("internal/martian/header", "ViaModifier", "ModifyRequest")
+	cls := r.fn(".", "handleMartianErrorStatus")
+	want := errorsAsTarget(cls)
+	var got []string
+	var dyn func(v ssa.Value, depth int)
+	dyn = func(v ssa.Value, depth int) {
+		if depth > 3 {
+			return
+		}
+		switch x := v.(type) {
+		case *ssa.MakeInterface:
+			got = append(got, typeStr(x.X.Type()))
+		case *ssa.Phi:
+			for _, e := range x.Edges {
+				dyn(e, depth+1)
+			}
+		case *ssa.Call:
+			if g := staticCallee(x.Common()); g != nil && inModule(g) && len(g.Blocks) > 0 {
+				for _, rv := range returnValues(g, 0) {
+					dyn(rv, depth+1)
+				}
+			} else {
+				got = append(got, "result of "+calleeName(x.Common()))
+			}
+		case *ssa.Const:
+		default:
+			got = append(got, typeStr(v.Type()))
+		}
+	}
+	for _, rv := range returnValues(vm, 0) {
+		dyn(rv, 0)
+	}
+	got = dedupStrings(got)
+	good := len(got) == 1 && got[0] == want && want != ""
+	r.check(good, "ViaModifier#loop-error-type", vm.Pos(), "returns "+want+", which the classifier extracts", "the Via modifier returns an error of dynamic type "+strings.Join(got, ", ")+" while forwarder's classifier looks for "+want+" with errors.As: the loop is answered 500 instead of 400")
+}
